@@ -1995,7 +1995,14 @@ impl<'a> Socket<'a> {
                 }
 
                 self.remote_seq_no = repr.seq_number + 1;
-                self.remote_last_seq = self.local_seq_no + 1;
+                if repr.ack_number.is_some() {
+                    self.remote_last_seq = self.local_seq_no + 1;
+                } else {
+                    // Simultaneous open: our SYN goes out again, now as a SYN|ACK. Do not
+                    // assume it is in flight and covered by the retransmission timer; the
+                    // timer may already have fired without the SYN reaching the device.
+                    self.remote_last_seq = self.local_seq_no;
+                }
                 self.remote_last_ack = Some(repr.seq_number);
                 self.remote_has_sack = repr.sack_permitted;
                 self.remote_win_scale = repr.window_scale;
